@@ -307,6 +307,7 @@ def deref(s):
         return s[1:]
     return '(*%s)' % s
 
+L0_BOUNDARY_RECORDS = {'SimpleAllocator'}
 INLINE_EXTERNAL = {'move', 'forward', 'addressof', 'min', 'max', 'exchange', 'swap', 'distance', 'next', 'prev', 'move_if_noexcept'}
 
 class FnEmitter:
@@ -715,6 +716,8 @@ class FnEmitter:
             name = me['name']
             thisarg = (lambda: self.rv(base)) if me.get('isArrow') else (lambda: self.addr(base))
             this_type = self.tm.canon_of(base['type'])
+            if me.get('isArrow') and this_type.endswith(' *'):
+                this_type = this_type[:-2]
             args = ch[1:]
             ftype = decl['type']['qualType'] if decl else None
         else:
@@ -736,7 +739,10 @@ class FnEmitter:
         # ---- lowered amc function -------------------------------------------------
         if decl is not None and decl['id'] in self.L.funcs:
             f2 = self.L.funcs[decl['id']]
-            return self.call_lowered(f2, thisarg, args, e, discard)
+            # the 'basic allocator' concept is an L0 boundary (exact-size ghost semantics); amc's own SimpleAllocator is proved
+            # against malloc/realloc/free in its own units
+            if not (f2.record in L0_BOUNDARY_RECORDS and self.f.record != f2.record):
+                return self.call_lowered(f2, thisarg, args, e, discard)
         # ---- element special members / ghost types / external ----------------------
         return self.call_external(name, ftype, decl, thisarg, this_type, args, e, discard)
 
@@ -1581,8 +1587,8 @@ class LoweringDriver(Lowering):
         funcs = [f for f in self.done if f.error is None]
         funcs.sort(key=lambda f: f.cname)
         # structs are collected while lowering; define them first
-        protos = '\n'.join(f.proto + ';' for f in funcs)
-        bodies = '\n\n'.join(f.text for f in funcs)
+        protos = '\n'.join('/*@PROTO %s@*/ %s;' % (f.cname, f.proto) for f in funcs)
+        bodies = '\n\n'.join('/*@FN %s@*/\n%s\n/*@ENDFN@*/' % (f.cname, f.text) for f in funcs)
         structs = self.emit_structs()
         # L0 primitives: alias signature-suffixed names to the generic implementation; unknown primitive = stop
         l0dir = os.path.join(os.path.dirname(os.path.dirname(os.path.abspath(__file__))), 'ghost')
